@@ -1434,6 +1434,17 @@ class GenBankSim(Base):
         if back.sequence_start != op["start"]:
             self.fail("typed:sequence-start-changed", got=back.sequence_start, expected=op["start"])
         self.compare_annotation(back.annotation, make_annotation(op["features"], True), op["features"], "annotated_sequence")
+        # include_only restricts the features that are read back and changes nothing else
+        keys = sorted({f["key"] for f in op["features"]})
+        if keys:
+            from biotite.sequence import Annotation
+
+            only = keys[-1:]
+            st, part = call(gb.get_annotated_sequence, new, fmt, only)
+            exp_part = Annotation([f for f in make_annotation(op["features"], True) if f.key in only])
+            if st == "exc" or part.annotation != exp_part or str(part.sequence) != op["seq"] or part.sequence_start != op["start"]:
+                self.fail("typed:annotation-changed:include-only", where="get_annotated_sequence(include_only)", problem="include-only",
+                          include_only=only, got=exc_name(part) if st == "exc" else sorted(f.key for f in part.annotation))
         self.file = new
         self.readbacks += 1
         self.res.stats["probe:typed-roundtrip"] += 1
